@@ -1,12 +1,11 @@
 package main
 
 import (
-	"bytes"
-	"encoding/hex"
 	"encoding/json"
 	"fmt"
 	"os"
 
+	"github.com/google/pprof/internal/zzverif/vdrv"
 	"github.com/google/pprof/internal/zzverif/vlib"
 	"github.com/google/pprof/profile"
 )
@@ -14,35 +13,16 @@ import (
 func main() {
 	var r struct {
 		Case struct {
-			Hex string `json:"hex"`
+			Samples []vlib.ASample `json:"samples"`
 		} `json:"case"`
 	}
 	b, _ := os.ReadFile(os.Args[1])
 	json.Unmarshal(b, &r)
-	data, _ := hex.DecodeString(r.Case.Hex)
-	fmt.Printf("%d bytes\n%s\n", len(data), string(data[:min(len(data), 400)]))
-	p, err := profile.ParseData(data)
-	fmt.Println("parse:", err)
-	if err != nil {
-		return
+	p := vlib.NewConc(0).Profile(vlib.AProf{ST: []vlib.AVT{{T: "s1", U: "count"}, {T: "s2", U: "count"}}, Samples: r.Case.Samples})
+	for _, nf := range []string{"0", "0.5"} {
+		args := []string{"-tree", "-functions", "-flat", "-sample_index=s2", "-nodecount=0", "-edgefraction=0", "-nodefraction=" + nf, "-output=out", "src"}
+		res := vdrv.Run(vdrv.Opts{Args: args, Fetch: func(string) (*profile.Profile, error) { return p.Copy(), nil }})
+		fmt.Println(args, res.Err)
+		fmt.Println(res.File("out"))
 	}
-	var w bytes.Buffer
-	p.Copy().WriteUncompressed(&w)
-	q, err := profile.ParseUncompressed(w.Bytes())
-	fmt.Println("reparse:", err)
-	a, c := vlib.ProjectFull(p), vlib.ProjectFull(q)
-	fmt.Println("equal:", a.Equal(c))
-	ja, _ := json.Marshal(a)
-	jc, _ := json.Marshal(c)
-	for i := 0; i < len(ja) && i < len(jc); i++ {
-		if ja[i] != jc[i] {
-			lo := i - 200
-			if lo < 0 {
-				lo = 0
-			}
-			fmt.Printf("first diff at %d:\nA: %s\nB: %s\n", i, ja[lo:min(i+200, len(ja))], jc[lo:min(i+200, len(jc))])
-			break
-		}
-	}
-	fmt.Println(len(ja), len(jc))
 }
